@@ -25,8 +25,8 @@ class StabilityMonitor:
     that keep it, so the monitor disarms for the rest of the trace when the producer breaks it (`strict=False`).
     With `strict=True` only the boundary at which the producer misbehaved is skipped (one-cycle form, which is
     what the Lean theorem `KeepsContract` states for every reachable state).
-    Extra inputs (selector / enable / shift) belong to the producer side: they must be held while a token waits
-    on the sink or on the source."""
+    Extra inputs (enable / shift) are control inputs: they must be held while a token waits at the *source*
+    (Lean: `EnableHeld`, `ShiftHeld`); a boundary across which they moved is not checked."""
 
     def __init__(self, strict=False):
         self.strict = strict
@@ -69,7 +69,7 @@ def next_pending(letter, outs):
     ex = tuple(letter[5:])
     sp = (v, d, f, l) if (v and not outs[0]) else None
     op = tuple(outs[2:5]) if (outs[1] and not r) else None
-    xp = ex if (ex and (sp is not None or op is not None)) else None
+    xp = ex if (ex and op is not None) else None
     return sp, op, xp
 
 
@@ -207,7 +207,7 @@ class C04Inst:
 
 class HoldingGen:
     """Contract-obeying producer around `inst.gen`: holds valid/token while the sink did not accept, and holds the
-    extra inputs (selector/enable/shift) while a token waits on either side."""
+    extra inputs (enable/shift) while a token waits at the source."""
 
     def __init__(self, inst):
         self.inst = inst
@@ -329,7 +329,7 @@ def coexplore(inst, lean, cov, max_states=200000, deadline=None):
     maxgap = {"handshake": 0, "delivery": 0, "sink handshake": 0}
     out = []
     exhaustive = True
-    while frontier and len(out) < 3:
+    while frontier and len(out) < 6:
         if (deadline is not None and time.time() > deadline) or len(seen) > max_states:
             exhaustive = False
             break
@@ -361,13 +361,11 @@ def coexplore(inst, lean, cov, max_states=200000, deadline=None):
             transitions += 1
             if inst.nontrivial(letter, outs):
                 nontriv += 1
-            if not masked_equal(inst, outs, mouts):
+            obey = (sp is None or tuple(letter[:4]) == sp) and (xp is None or tuple(letter[5:]) == xp)
+            mismatch = not masked_equal(inst, outs, mouts)
+            if mismatch:
                 tr = path_to(seen, st) + [letter]
                 out.append(Disagreement(inst, tr, len(tr) - 1, outs, mouts))
-                if len(out) >= 3:
-                    break
-                continue
-            obey = (sp is None or tuple(letter[:4]) == sp) and (xp is None or tuple(letter[5:]) == xp)
             if inst.stable and obey and op is not None:
                 checks += 1
                 armed_checks += 1 if armed else 0
@@ -380,9 +378,13 @@ def coexplore(inst, lean, cov, max_states=200000, deadline=None):
                         out.append(Disagreement(inst, tr, len(tr) - 1, outs, None,
                                                 kind="one-cycle stability (Lean KeepsContract) fails in a state reached "
                                                      "by a producer that broke the contract earlier: " + msg))
-                    if len(out) >= 3:
+                    if len(out) >= 6:
                         break
                     continue
+            if mismatch:
+                if len(out) >= 6:
+                    break
+                continue
             sp2, op2, xp2 = next_pending(letter, outs)
             st2 = (key2, sid2, sp2, op2, xp2, armed and obey)
             if st2 not in seen:
